@@ -375,11 +375,20 @@ class StmtMixin:
         if len(live) == 1:
             j = live[0]
         else:
-            base = len(env.pc)
-            j = join_envs(live, [conj(e.pc[base:]) if e.pc[base:] else TRUE for e in live])
-        pc = list(env.pc)
+            base = 0
+            while all(len(e.pc) > base for e in live) and all(e.pc[base] == live[0].pc[base] for e in live):
+                base += 1
+            conds = [conj(e.pc[base:]) if e.pc[base:] else TRUE for e in live]
+            j = join_envs(live, conds)
+            if getattr(self, "guarded_join", False):
+                # what only one of the joined paths knows is kept as an implication of that path's condition
+                for e_, c_ in zip(live, conds):
+                    if is_const(c_, True):
+                        continue
+                    for f_ in e_.facts:
+                        if f_ not in j.facts and len(j.facts) < 200:
+                            j.facts.append(binop("or", un("not", c_), f_))
         env.adopt(j)
-        env.pc = pc
         env.dead = False
 
     def _loop_body(self, s, env, mod, fn, exits, frame):
